@@ -52,6 +52,38 @@ CHECKS = {
          "Every function reachable from `std` (90 exports discovered at run time) is called through the host API and in-language on boundary/random arguments; results must inhabit the declared type, never raise, and match naive re-implementations of the documented behaviour; file-system functions are compared with std::fs on twin trees across 14 path states (all pairs for copy/rename); cgetline is fed generated stdin.",
          "Transcendental float functions are only compared with the platform libm; fs differential assumes the twin tree is in the same state (rebuilt before every case).",
          "DESIGN.md section 3, C18"),
+ "C01": ("exhaustive operator x operand-type matrix with subsumption calls, executed under the verif monitor; oracle: harness-side membership of every observed value in the static type the checker computed (tag and contents)",
+         "Every unary/postfix/statement template on 60 operand types and every infix/assignment operator and two-operand template on all pairs; each accepted function is called through the host API and in-language with every catalogue value of its parameter types and, for one-parameter functions, with every catalogue value the host API admits (subsumption); the monitor reports each instruction result, argument, return, final result and reachable cell with its static type (~425k executions per quick run).",
+         "Instructions inside the placeholder-typed helper closures of @ ? ~ are not judged (hook H4); the known finding C01:void-for-never (filler of an exhausted empty-typed iterator) is listed in KNOWN_FINDINGS.txt and excluded from the catalogue.",
+         "DESIGN.md section 3, C01"),
+ "C02": ("exhaustive operator x operand-type matrix and documentation corpus executed under a panic-capturing guard; crash oracle restricted to the six documented run-time errors",
+         "The same population as C01 (all accepted matrix functions x all catalogue values, host API and in-language); the run must end in a value or one of the six documented errors; budgets (fuel, depth, length) make runaway programs inconclusive, not violations.",
+         "Programs run against std without fs/io; a panic hook + catch_unwind is the observation.",
+         "DESIGN.md section 3, C02"),
+ "C04": ("proptest-generated typed programs printed as literal / fully hidden / partly hidden twins; differential oracle between the twins with the reference interpreter as referee and a constness analysis for the one permitted difference",
+         "40k generated programs per quick run (constants profile) x 3 printings; values incl. the effect log and all top-level names, and run-time error kinds must agree; a parse-time error of the literal version must be justified by a constant (or unclassifiable) failing operand.",
+         "The hiding wrapper `*(mut T c)` is assumed opaque to the folding pass (Mut::recreate and indirection never fold); twins differing in type-check acceptance are discarded.",
+         "DESIGN.md section 3, C04"),
+ "C06": ("proptest-generated typed programs (scoping profile) against the reference interpreter (model-based oracle) on all top-level names, the effect log and errors",
+         "40k programs per quick run with a 4-name identifier pool: shadowing in every body kind, closures capturing names redeclared later, shared cells, named recursion, parameters spelled like their function, user-written iterators with locals consumed by every operator; compared with an independent big-step evaluator written from the documentation.",
+         "Trusts the reference interpreter (genr/refi.rs); unspecified values (fillers of exhausted array iterators) discard a case when observable.",
+         "DESIGN.md section 3, C06"),
+ "C07": ("proptest-generated typed programs (effects profile) with tick calls in operand positions; oracle: the reference interpreter's effect log (exactly-once, left-to-right, short-circuit)",
+         "40k programs per quick run; subexpressions in operand positions of binary operators, calls, array/tuple/struct elements, slice bounds, [v; n], reduce, assignments, short-circuit operators, branches and match candidates are wrapped in tkN(k, e); the log sequence and all values must equal the reference's, in literal, hidden and partly hidden printings.",
+         "Trusts the reference interpreter's order of evaluation, which follows the property text.",
+         "DESIGN.md section 3, C07"),
+ "C11": ("proptest-generated typed programs (iterator profile) against the reference interpreter's sequence semantics, laziness and pull order observed through the effect log",
+         "40k programs per quick run: array and user-written iterators, pipelines of @ ? `? T`, reducers, partition, for loops, manual pulls (flag only after exhaustion), shared stateful iterators, effectful callbacks.",
+         "Fillers of exhausted array iterators are unspecified and discard a case when observable; user-written iterators carry explicit fillers.",
+         "DESIGN.md section 3, C11"),
+ "C12": ("proptest-generated typed programs (control profile) against the reference interpreter",
+         "40k programs per quick run nesting if / match (value, type, default arms) / if-set (member, union and any tests) / while-set / loop / while / for / run-once loops inside functions with break, continue and return at every depth.",
+         "Run-time type dispatch is only generated on scalars, where the run-time type is unambiguous.",
+         "DESIGN.md section 3, C12"),
+ "C13": ("proptest-generated assignment histories over aliasing graphs against the reference heap, state inspection through the host API after run-time errors, plus the assignment part of the operand-type matrix under the verif monitor (cell typing under subsumption)",
+         "40k programs per quick run (cells profile): cells in bindings, aliases, closures, arrays; all 12 assignment operators incl. failing ones; every read, every yielded value, the aliasing structure of results and the cells still reachable after an error are compared; ~8k matrix cases check that every reachable cell holds a value of its declared type.",
+         "Trusts the reference heap model; matrix part trusts hook H1/H2 observations.",
+         "DESIGN.md section 3, C13"),
 }
 PENDING = {}
 props = [json.loads(l) for l in open(os.path.join(ROOT, "properties.jsonl"))]
